@@ -324,7 +324,7 @@ func TestC12RejectEnumerated(t *testing.T) {
 		}
 		flipStride, fixStride := 1, 4
 		if len(file) > 700 {
-			flipStride, fixStride = 16, 16
+			flipStride, fixStride = 32, 16
 			if vlib.Thorough() {
 				flipStride, fixStride = 1, 8
 				if len(file) > 8192 {
@@ -432,7 +432,7 @@ func TestC12Isolated(t *testing.T) {
 	}
 	nHostile := len(cases)
 	// (b) file system, mmap and plain reads, reader and writer
-	budget := vlib.Scale(1400, 6000)
+	budget := vlib.Scale(1000, 6000)
 	var fsCases []RejectCase
 	for wi, w := range ws {
 		for li, layout := range []string{"new", "old", "two"} {
